@@ -86,7 +86,13 @@ func (zp *ZoneParser) generate(l lex) (RR, bool) {
 	zp.sub = NewZoneParser(r, zp.origin, zp.file)
 	zp.sub.includeDepth, zp.sub.includeAllowed = zp.includeDepth, zp.includeAllowed
 	zp.sub.generateDisallowed = true
-	zp.sub.SetDefaultTTL(defaultTtl)
+	// The generated records are part of this zone: an omitted TTL is what it would be for a record written out
+	// in full at this place ($TTL, else the last stated TTL, else the configured default), as for $INCLUDE.
+	if zp.defttl != nil {
+		zp.sub.defttl = zp.defttl
+	} else {
+		zp.sub.SetDefaultTTL(defaultTtl)
+	}
 	return zp.subNext()
 }
 
